@@ -64,6 +64,8 @@ func checkC07(p *Program, r *Report) {
 	}
 	ea := buildErrAnalysis(m)
 	va := buildEvalAnalysis(m)
+	r.Explain("R8 in the binary operator handlers the first operand is taken out of its interface before the second operand is evaluated (an operand read from a list slot is that slot until Elem() copies it out: unwrapped later, a second operand that assigns to the slot changes the first after the fact).")
+	leftValueFixedBeforeRight(p, r, m, va, "C07.R8")
 	nEvents, nHandoffs := 0, 0
 	var evList []string
 	for _, fn := range m.funcsOnRecord() {
